@@ -389,28 +389,55 @@ func (g *pg) catBlowup() {
 func (g *pg) arith() {
 	r := g.r
 	g.pushInt(g.boundary(-1))
-	switch r.Intn(6) {
-	case 0:
-		g.a.op(opINC)
-	case 1:
-		g.a.op(opDEC)
-	case 2:
+	switch r.Intn(5) {
+	case 0: // unary
+		g.a.op([]byte{0x83, 0x8B, 0x8C, 0x8D, 0x8F, 0x90, 0x92, opNOT}[r.Intn(8)])
+	case 1, 2: // binary integer
 		g.pushInt(g.boundary(-1))
-		g.a.op(opADD)
+		g.a.op([]byte{0x84, 0x85, 0x86, 0x93, 0x94, 0x95, 0x96, 0x97, 0x98, 0x99, 0xA3, 0xA4}[r.Intn(12)])
 		g.pop()
-	case 3:
+	case 3: // comparisons
 		g.pushInt(g.boundary(-1))
-		g.a.op(opSUB)
-		g.pop()
-	case 4:
-		g.pushInt(g.boundary(-1))
-		g.a.op([]byte{opLT, opGT}[r.Intn(2)])
+		g.a.op([]byte{0x9C, 0x9E, 0x9F, 0xA0, 0xA1, 0xA2, 0x9A, 0x9B}[r.Intn(8)])
 		g.pop()
 		g.pop()
 		g.push('o', -1)
-	case 5:
-		g.a.op(opNOT)
+	case 4:
+		g.pushInt(g.boundary(-1))
+		g.pushInt(g.boundary(-1))
+		g.a.op(0xA5)
 		g.pop()
+		g.pop()
+		g.pop()
+		g.push('o', -1)
+	}
+}
+
+// the three modelled syscalls (X lines too)
+func (g *pg) runtimeOp() {
+	r := g.r
+	switch r.Intn(5) {
+	case 0, 1:
+		g.anyValue()
+		g.a.syscall([]string{"System.Runtime.Serialize", "System.Runtime.Notify"}[r.Intn(2)])
+		g.pop()
+	case 2:
+		g.anyValue()
+		g.a.syscall("System.Runtime.Serialize")
+		g.a.syscall("System.Runtime.Deserialize")
+	case 3:
+		g.a.pushBytes(genSerialized(r))
+		g.a.syscall("System.Runtime.Deserialize")
+		g.push('?', -1)
+	case 4: // struct equality on what is there
+		g.a.pushI(0)
+		g.a.op(opNEWSTRUCT, opDUP)
+		g.anyValue()
+		g.a.op(opAPPEND)
+		g.a.pushI(0)
+		g.a.op(opNEWSTRUCT, opDUP)
+		g.anyValue()
+		g.a.op(opAPPEND, opEQUAL)
 		g.push('o', -1)
 	}
 }
@@ -718,7 +745,7 @@ func (g *pg) sysOp() {
 		g.push('?', -1)
 	case 4, 5, 6, 7: // Native.Invoke(args, method, address, version)
 		c := nativeNames[r.Intn(len(nativeNames))]
-		if !r.Chance(map[bool]int{true: 2, false: 5}[g.calm]) {
+		if r.Chance(30) {
 			g.tameValue()
 		} else {
 			g.anyValue()
@@ -872,6 +899,9 @@ func genSerialized(r *hx.Rand) []byte {
 func genProg(r *hx.Rand, sys bool, calm bool) []byte {
 	g := &pg{r: r, sys: sys, calm: calm}
 	n := 1 + r.Intn(9)
+	if !sys {
+		n = 1 + r.Intn(5) // X lines: shorter, so that more of them end without a fault and the final stacks are compared
+	}
 	for i := 0; i < n; i++ {
 		k := r.Intn(100)
 		if sys && i == 0 && r.Chance(70) { // most syscall programs start with a well-formed syscall snippet, so that one is reached
@@ -886,9 +916,11 @@ func genProg(r *hx.Rand, sys bool, calm bool) []byte {
 			g.stackOp()
 		case k < 78:
 			g.spliceOp()
-		case k < 84:
+		case k < 83:
 			g.flow()
-		case k < 88:
+		case k < 86:
+			g.runtimeOp()
+		case k < 89:
 			g.arith()
 		case k < 92:
 			g.anyValue()
@@ -1289,33 +1321,10 @@ func corpus() []string {
 	x(0, (&asm{}).op(opJMP, 0x03))
 	x(0, (&asm{}).pushI(1).op(opDCALL))
 	x(0, (&asm{}).op(opNEWMAP, opDUP).pushI(1).pushI(2).op(opSETITEM, opDUP, opKEYS))
-	// the known node-killing case (recorded under C14): Native.Invoke with a=[1,a] as argument
-	cyc := func() *asm {
-		return (&asm{}).pushI(0).op(opNEWARRAY, opDUP).pushI(1).op(opAPPEND, opDUP, opDUP, opAPPEND)
-	}
-	ontA := nutils.OntContractAddress
-	v(200000, cyc().pushBytes([]byte("transfer")).pushBytes(ontA[:]).pushI(0).syscall("Ontology.Native.Invoke"))
-	v(200000, cyc().syscall("System.Runtime.Serialize"))
-	v(200000, cyc().syscall("System.Runtime.Notify"))
-	v(200000, cyc().op(opDUP, opEQUAL))
-	// ONT ID: removeKeyByController / removeKeyByRecovery with key index 0 (recorded under C45): id(2) is controlled by id(1) key 1,
-	// id(1) has the recovery group {id(3)}
-	nl := func(m string, signer int, f func(s *common.ZeroCopySink)) {
-		out = append(out, fmt.Sprintf("N ontid %s %s %d", hx.Hex([]byte(m)), hx.Hex(sinkOf(f)), signer))
-	}
-	signers := sinkOf(func(s *common.ZeroCopySink) { vu(s, 1); vb(s, ontID(3)); vu(s, 1) })
-	for _, idx := range []uint64{0, 1, 2} {
-		idx := idx
-		nl("removeKeyByController", 1, func(s *common.ZeroCopySink) { vb(s, ontID(2)); vu(s, idx); vu(s, 1) })
-		nl("removeKeyByRecovery", 3, func(s *common.ZeroCopySink) { vb(s, ontID(1)); vu(s, idx); vb(s, signers) })
-		nl("removeKeyByIndex", 1, func(s *common.ZeroCopySink) { vb(s, ontID(1)); vu(s, idx); vu(s, 1) })
-	}
-	// Deploy transactions with wasm modules that take the validator / the deploy handler down
-	out = append(out,
-		"W 0061736d010000000104016000000503010001070a0106696e766f6b650000 -",
-		"W 0061736d01000000010401600000030201000503010001070b0106696e766f6b6500e8070a040102000b -",
-		"W 0061736d0100000001040160000003020100 -",
-		"W 0061736d01000000010401600000030201000503010001070a0106696e766f6b6500000a040102000b 01")
+	// the witnesses of the three repaired crashes live in corpus/C12/fixed.ops
+	_ = v
+	_ = nutils.OntContractAddress
+	_ = common.ADDRESS_EMPTY
 	_ = vmt.ArrayType
 	return out
 }
